@@ -350,14 +350,16 @@ LivePods(s, d, n) == { p \in PodsOn(s, d, n) : p.phase # "Unknown" }
 TmplFor(s, d, n) ==
     IF d.hasCanary /\ HasRS(s, d.canaryRS) /\ n \in CNodes(d) THEN RSOf(s, d.canaryRS).tmpl ELSE RSOf(s, d.active).tmpl
 
+\* (a defaulted ExtendedDaemonSet at a quiet, error-free fixpoint HAS an active replica set: a fixpoint without one - e.g. after the
+\* active replica set was deleted - is not convergence)
 Converged(s, d) ==
-    (d.active > 0 /\ HasRS(s, d.active)) =>
-      /\ \A n \in NodeNames(s) :
+    /\ d.active > 0 /\ HasRS(s, d.active)
+    /\ \A n \in NodeNames(s) :
            IF Fits(s, n, TmplFor(s, d, n))
            THEN \E p \in LivePods(s, d, n) : LivePods(s, d, n) = {p} /\ p.ready /\ ~p.term /\ p.hash = TmplFor(s, d, n)
            ELSE LivePods(s, d, n) = {}
-      /\ \A p \in OwnPods(s, d) : (p.phase # "Unknown" /\ p.node # "") => HasNode(s, p.node)
-      /\ ~d.hasCanary => RSOf(s, d.active).tmpl = d.tmpl
+    /\ \A p \in OwnPods(s, d) : (p.phase # "Unknown" /\ p.node # "") => HasNode(s, p.node)
+    /\ ~d.hasCanary => RSOf(s, d.active).tmpl = d.tmpl
 
 QuiescentStatus(s, d) ==
     (d.active > 0 /\ HasRS(s, d.active)) =>
